@@ -126,7 +126,8 @@ def key_value(tok, rnd, used):
 def leaf_value(tok, rnd, mask):
     if tok == 'v_secret_str':
         sec = ''.join(rnd.choice('xqz0123456789') for _ in range(6))
-        form = rnd.choice(['--password %s', 'token=%s', '"auth_token": "%s"', "<secret>%s</secret>"])
+        form = rnd.choice(['--password %s', 'token=%s', '"auth_token": "%s"', "<secret>%s</secret>",
+                           'mysql --PASSWORD %s', 'Auth_Token = %s', "{'adminPass' : '%s'}", 'SSLKEY=%s'])
         return form % sec, form % mask
     if tok == 'v_plain_str':
         v = rnd.choice(['admin', '/home/admin', '', 'hello world'])
